@@ -169,6 +169,19 @@ def iv_faults(i, n):
     return f
 
 
+def beyond_faults(i, t_end):
+    """one malformed row appended strictly after t_end (the end of the reference span)"""
+    rows = [("negative-duration", [t_end + 2.0, t_end + 1.0]), ("zero-duration", [t_end + 2.0, t_end + 2.0]),
+            ("negative-duration-near", [t_end + 0.5, t_end + 0.25])]
+    return [("beyond-span:%s" % n, i, (lambda a, row=row: np.vstack([a, [row]]))) for n, row in rows]
+
+
+def before_faults(i, t_start):
+    """one malformed row prepended strictly before t_start > 0 (the start of the reference span)"""
+    rows = [("negative-duration", [t_start - 0.5, t_start - 0.75]), ("zero-duration", [t_start - 0.5, t_start - 0.5])]
+    return [("before-span:%s" % n, i, (lambda a, row=row: np.vstack([[row], a]))) for n, row in rows]
+
+
 def at_all(name, i, n, fn):
     """the same fault at every position p < n of positional argument i"""
     return [("%s@%d" % (name, p), i, (lambda a, p=p: fn(a, p))) for p in range(n)]
@@ -384,6 +397,16 @@ def entries():
     for f in ("validate", "bss_eval_sources", "bss_eval_sources_framewise", "bss_eval_images",
               "bss_eval_images_framewise", "evaluate"):
         E.append(Entry("separation.%s" % f, getattr(separation, f), sp, spf))
+    # appended last so that entry indices in older replay files stay valid
+    # malformed estimated intervals lying strictly beyond the reference span (the span adjustment of evaluate()
+    # must not make them disappear before validation); labels are padded so that only the interval is at fault
+    E.append(Entry("segment.evaluate[beyond-span]",
+                   lambda r, rl, e, el: segment.evaluate(r, rl, e, (list(el) + ["q", "q"])[:len(e)]), sl,
+                   beyond_faults(2, 4.0)))
+    ce1 = [lambda: ci[0]() + 1.0, ce[1], lambda: ci[1]() + 1.0, ce[3]]
+    E.append(Entry("chord.evaluate[beyond-span]",
+                   lambda r, rl, e, el: chord.evaluate(r, rl, e, (list(el) + ["A:min", "A:min"])[:len(e)]), ce1,
+                   beyond_faults(2, 4.0) + before_faults(2, 1.0)))
     return E
 
 
